@@ -19,10 +19,10 @@ import (
 
 type finding struct {
 	key, kind, family, text, out, detail string
-	rank                                 int   // severity of the kept example (lower = more severe)
-	count                                int64 // generated texts in this class
-	validBefore                          int64 // … whose original text validated (a working config changes meaning)
-	becomesValid                         int64 // … whose original text failed validation and whose formatted text validates
+	rank                                 int    // severity of the kept example (lower = more severe)
+	count                                int64  // generated texts in this class
+	validBefore                          int64  // … whose original text validated (a working config changes meaning)
+	becomesValid                         int64  // … whose original text failed validation and whose formatted text validates
 	env                                  string // environment of the kept example: "" = every variable set, "unset" = none set, "cross" = formatted while set, compiled while unset
 }
 
@@ -347,12 +347,14 @@ func TestCheck(t *testing.T) {
 				i := strings.Index(frame, sentinel)
 				pre, post := frame[:i], frame[i+len(sentinel):]
 				trq, tru := []string{triple(s, "lex-quoted:"+p.name)}, []string{triple(s, "lex-unquoted:"+p.name)}
-				for _, raw := range lex {
-					if !p.unquotedOnly {
-						w.eval("lex", []string{s.site()}, "", trq, pre+`"`+raw+`"`+post)
+				w.withCensus(func() {
+					for _, raw := range lex {
+						if !p.unquotedOnly {
+							w.eval("lex", []string{s.site()}, "", trq, pre+`"`+raw+`"`+post)
+						}
+						w.eval("lex", []string{s.site()}, "", tru, pre+raw+post)
 					}
-					w.eval("lex", []string{s.site()}, "", tru, pre+raw+post)
-				}
+				})
 			})
 		}
 		// -- whole-file spellings of the k = 1 programs -----------------------------------
@@ -521,6 +523,26 @@ func TestCheck(t *testing.T) {
 	r.Set("size_positions", len(zp.pos))
 	r.Set("size_contexts_route_matcher_plain", []int{len(routeCtxs), len(matcherCtxs), len(plainCtxs)})
 	r.Set("size_stretch_shapes", len(stretches))
+	{
+		var routed, lists, pairs int
+		for _, po := range zp.pos {
+			if len(po.ctxs) == len(routeCtxs) {
+				routed++
+			}
+		}
+		for _, s := range g.slots {
+			if s.lst != nil {
+				lists++
+			}
+			if s.pair != nil {
+				pairs++
+			}
+		}
+		r.Set("size_positions_in_routes", routed)
+		r.Set("size_list_directives", lists)
+		r.Set("size_pair_directives", pairs)
+		r.Set("size_route_groupings", len(manyRouteLayouts))
+	}
 	r.Set("size_length_classes", len(lenClasses))
 	r.Set("compose_positions", len(cp.pos))
 	r.Set("compose_list_directives", len(cp.lists))
@@ -553,14 +575,14 @@ func TestCheck(t *testing.T) {
 		"in every structural context of its root block (route: bare, shorthand, single route in a wrapper, first / middle / last of 2 and 3 consecutive routes of inbound / outbound / internal, consecutive shorthands, first / last of two bare routes; named matcher: alone, first / last / middle of 2-3; other blocks: as they stand), "+
 		"thorough also lengths aligned so that the formatted line, the source line and the whole formatted text are B-1, B, B+1 bytes for B = 4 096 and 65 536; every repeatable directive and name/value pair directive with 100 / 1 000 / 10 000 / 65 537 elements (one line, repeated, ten per line; alternating two values / numbered; quoted / unquoted), every directive of the table repeated 100 / 1 000 times, "+
 		"100 / 1 000 deliver blocks, secrets, named matchers with references, programs of 100 / 1 000 / 10 000 routes in nine groupings (also with one 65 536 / 65 537 byte value in the first / middle / last route); comment lines and runs of blank lines / blanks / tabs / CRLF of every length class and 100 ... 65 537 comment lines at every token boundary of the base program in the structural contexts "+
-		"(quick: the 65 536 / 65 537 / 1 MiB classes in the contexts bare and middle / last of a three-route inbound wrapper, 1 000 / 10 000 elements); the size family, the k = 1, standalone and layout families are also judged by the survival census (no value of the input AST is missing among the tokens of the formatted text, no AST field occurs less often after the round trip); "+
+		"(quick: the 65 536 / 65 537 / 1 MiB classes in the contexts bare and middle / last of a three-route inbound wrapper, 1 000 / 10 000 elements); the size family, the k = 1, lexical-class, standalone, layout and (first environment) composition families are also judged by the survival census (no value of the input AST is missing among the tokens of the formatted text, no AST field occurs less often after the round trip); "+
 		"texts the parser rejects are skipped and counted. A case is distinct/non-trivial when it parsed: key = (block kind, directive, spelling) per chosen slot, or the layout shape.")
 	r.Assume("environment is fixed by the harness: C19_E<n> env vars and c19f_e<n> files (relative to a private cwd) hold the placeholder values, C19_UNSET is unset; nothing else of the process environment is referenced by generated texts")
 	r.Assume("ValidationResult is compared as OK + multiset of Errors + multiset of Warnings (exact text, no positions are embedded by Compile): compileVars ranges over a Go map, so the order of several vars errors is undefined even for a single AST")
 	r.Assume("Compiled is compared with reflect.DeepEqual; generated numeric values never produce NaN (NaN != NaN would be a false difference)")
-	r.Assume("value composition: the environment is switched for the whole process between two fixed states (every C19_E<n> variable and c19f_e<n> file holds its piece / none exists, C19_UNSET never exists); values of other shapes of the environment (a variable holding blanks, braces, quotes or another placeholder; files with a trailing newline) are not enumerated; "+
+	r.Assume("value composition: the environment is switched for the whole process between two fixed states (every C19_E<n> variable and c19f_e<n> file holds its piece / none exists, C19_UNSET never exists); values of other shapes of the environment (a variable holding blanks, braces, quotes or another placeholder; files with a trailing newline) are not enumerated; " +
 		"the cross-environment clause compiles the text formatted under the first environment in the second one only when the two formatted texts differ (equal texts need no second compile)")
-	r.Assume("size family: lengths are the usual machine boundaries (page, 64 KiB, 1 MiB), not limits read from the code; nothing above 1 MiB per value, 65 537 list elements and 10 000 routes is generated; a long value is one periodic run (a, ä, \\\\, \\\", blank, 0, or v itself), not arbitrary content; "+
+	r.Assume("size family: lengths are the usual machine boundaries (page, 64 KiB, 1 MiB), not limits read from the code; nothing above 1 MiB per value, 65 537 list elements and 10 000 routes is generated; a long value is one periodic run (a, ä, \\\\, \\\", blank, 0, or v itself), not arbitrary content; " +
 		"for the aligned lengths the real formatter is used as a ruler on a short twin (generator only: a wrong ruler shifts the lengths, never the verdict); the survival census reads the formatted text with the harness's own token reader and counts AST fields by reflection (exported fields, ...Quoted flags, header comments and channel types left out)")
 	r.Assume("lexical layer: the token split is done by the harness on its own rendered text (blank/LF separated, quotes and placeholders kept whole) and is only a generator; whether a symbol separates tokens, joins them, starts a comment or is rejected is left to the parser, and every accepted text is judged by the same round-trip oracle. Comments longer than ~40 bytes, more than two varied boundaries per file, and k = 2 programs under the lexical layer are not enumerated")
 	r.Assume("a text that does not parse cannot be formatted: checked as 'config.Parse never returns an error together with an AST' (every caller formats only what Parse returned without error)")
